@@ -10,3 +10,6 @@ import Dalek.Props.C01.Fiat26
 import Dalek.Props.C01.Avx2
 import Dalek.Props.C01.Ifma
 import Dalek.Props.C01.VecFormulas
+import Dalek.Props.C01.FiatHistory51
+import Dalek.Props.C01.FiatHistory26
+import Dalek.Props.C01.FiatBytes51
